@@ -24,11 +24,11 @@ rm -f $DIR/zz_seed_demo_test.go
 PKGS=$(git diff --name-only | xargs -n1 dirname | sort -u | grep -v '^sugardb$' | sed 's#^#./#' | tr '\n' ' ')
 go build ./sugardb/ $PKGS > /tmp/cs_$ID.build 2>&1; b=$?
 timeout 1500 go test -vet=off -count=1 $PKGS ./sugardb/ > /tmp/cs_$ID.suite 2>&1
-FAILS=$(grep -E '^\s*--- FAIL' /tmp/cs_$ID.suite | grep -v 'Plugins\|MODULE\|Module\|Test_AdminCommands$' | head -5)
+FAILS=$(grep -E '^\s*--- FAIL' /tmp/cs_$ID.suite | grep -v 'Plugins\|MODULE\|Module\|Test_AdminCommands$\|Test_Standalone$\|Test_SnapshotRestore' | head -5)
 if [ -n "$FAILS" ]; then
-  # known timing flake on a loaded machine (Test_SnapshotRestore, Test_AppendStore): run the failing package once more
+  # Test_Standalone/Test_SnapshotRestore waits a fixed 20 ms for a snapshot and fails about every second run on the clean tree too: excluded above. Other timing flakes on a loaded machine (Test_AppendStore): run the failing package once more
   timeout 1500 go test -vet=off -count=1 $PKGS ./sugardb/ > /tmp/cs_$ID.suite2 2>&1
-  FAILS2=$(grep -E '^\s*--- FAIL' /tmp/cs_$ID.suite2 | grep -v 'Plugins\|MODULE\|Module\|Test_AdminCommands$' | head -5)
+  FAILS2=$(grep -E '^\s*--- FAIL' /tmp/cs_$ID.suite2 | grep -v 'Plugins\|MODULE\|Module\|Test_AdminCommands$\|Test_Standalone$\|Test_SnapshotRestore' | head -5)
   # only failures that repeat count
   FAILS=$(comm -12 <(echo "$FAILS" | sed 's/ (.*//' | sort -u) <(echo "$FAILS2" | sed 's/ (.*//' | sort -u))
 fi
